@@ -484,8 +484,8 @@ def path_prefix_check(repo, chk, rule, modnames, triaged=None, checked=None, flo
             chk.ob(rule, True, c, '`%s`: the prefix ends with a separator' % short(c, 60))
         elif key in triaged:
             chk.ob(rule, True, c, '`%s`: triaged (%s)' % (short(c, 60), triaged[key]))
-        elif key in checked:
-            why, fn = checked[key]
+        elif key in checked or key[:2] + ('*',) in checked:
+            why, fn = checked.get(key) or checked[key[:2] + ('*',)]
             w = fn(repo, f, c)
             chk.ob(rule, w is None, c, '`%s`: %s' % (short(c, 60), why), w or '', key='path-prefix|%s:%s|%s' % key)
         else:
@@ -703,11 +703,11 @@ def possibly_unbound(func):
                         names = {x.id for x in ast.walk(cur.ast) if isinstance(x, ast.Name)}
                         pure = not any(isinstance(x, (ast.Call, ast.Await, ast.NamedExpr)) for x in ast.walk(cur.ast))
                         if pure and not (names & (rebound - ps)) and not (names & {nm}):
-                            t = norm(cur.ast)
+                            t, outcome = _test_key(cur.ast, k == 'T')
                             d = dict(known)
-                            if t in d and d[t] != (k == 'T'):
+                            if t in d and d[t] != outcome:
                                 continue
-                            d[t] = (k == 'T')
+                            d[t] = outcome
                             kn = frozenset(d.items())
                     if m.id == n.id:
                         found = (cur, k, known)
@@ -735,6 +735,14 @@ def possibly_unbound(func):
                 chain.reverse()
                 out.append((n, nm, c.describe(chain + [(n, None)])))
     return out
+
+
+def _test_key(e, taken):
+    """(canonical text, outcome) of a test: `x is not None` taken true and `x is None` taken false are the same fact"""
+    f = _flipped(e)
+    if f is not None and isinstance(e.ops[0], (ast.NotIn, ast.NotEq, ast.IsNot)):
+        return norm(f), not taken
+    return norm(e), taken
 
 
 def stable_names(func):
@@ -771,11 +779,11 @@ def consistent_reach(func, sources, is_target, block_node=None, block_edge=None,
                 names = {x.id for x in ast.walk(cur.ast) if isinstance(x, ast.Name)}
                 pure = not any(isinstance(x, (ast.Call, ast.Await, ast.NamedExpr)) for x in ast.walk(cur.ast))
                 if pure and names and names <= stable:
-                    t = norm(cur.ast)
+                    t, outcome = _test_key(cur.ast, k == 'T')
                     d = dict(known)
-                    if t in d and d[t] != (k == 'T'):
+                    if t in d and d[t] != outcome:
                         continue
-                    d[t] = (k == 'T')
+                    d[t] = outcome
                     kn = frozenset(d.items())
             if is_target(m):
                 chain = [(cur, k)]
